@@ -175,3 +175,32 @@ def atoms_module(atoms) -> str:
         first = False
     lines.append("====")
     return "\n".join(lines) + "\n"
+
+
+def norm_tree(t, root=True):
+    """Python twin of CDC.tla Norm/NormRoot on projected trees: merge same-kind nesting, unwrap singleton series."""
+    if not (isinstance(t, tuple) and t):
+        return t
+    if t[0] == "elem":
+        subs = []
+        for k, v in t[3]:
+            if v == "open":
+                subs.append((k, v))
+                continue
+            n = norm_tree(v, root=True)       # keeps the wrapper around a lone element
+            if n[1] == "S" and len(n[2]) == 1 and n[2][0][0] == "conn":
+                n = n[2][0]
+            subs.append((k, n))
+        return (t[0], t[1], t[2], tuple(subs), t[4])
+    if t[0] == "conn":
+        items = []
+        for x in t[2]:
+            y = norm_tree(x, root=False)
+            if y[0] == "conn" and y[1] == t[1]:
+                items.extend(y[2])
+            else:
+                items.append(y)
+        if not root and t[1] == "S" and len(items) == 1:
+            return items[0]
+        return (t[0], t[1], tuple(items))
+    return t
